@@ -3,6 +3,7 @@ Props/C03.lean — C03 "Files stay structurally valid through any edit history".
 Formats with a Lean container model: FLAC (and the Ogg page layer, Props/C15.lean).
 -/
 import MutagenModel.Proofs.Container.Flac
+import MutagenModel.Proofs.Container.ApeFile
 import MutagenModel.Proofs.Container.Id3File
 set_option linter.unusedVariables false
 namespace Mutagen.C03
@@ -56,5 +57,19 @@ theorem id3_save_header_consistent (L : Id3F.Layout) (h : L.OK) (vmaj : Nat) (hv
     exact List.drop_left' rfl
   · simp [Id3F.magicID3, List.append_assoc, List.take_left' rfl]
   · simp [Id3F.magicID3, List.append_assoc, List.drop_left' rfl, List.take_left' (length_zeros p)]
+
+/-! ## APEv2-tagged files -/
+
+/-- after an APEv2 save the file is the audio followed by a tag that the strict APEv2 decoder
+(preamble, header/footer agreement, flags, declared size filling the tag exactly, item count)
+reads back as the items written -/
+theorem ape_save_wellformed (audio : Bytes) (old new : List Ape.Item)
+    (hs : ((old.map Ape.encodeItem).flatten).length + 32 < 256 ^ 4) (ha : ApeF.AudioOK audio (Ape.encodeTag old))
+    (hnew : Ape.TagOK new) :
+    ∃ out, ApeF.save (audio ++ Ape.encodeTag old) (Ape.encodeTag new) = .ok out ∧
+      out.take audio.length = audio ∧ Ape.decodeTag (out.drop audio.length) = some new := by
+  refine ⟨_, ApeF.save_over_tag audio old _ hs ha, List.take_left' rfl, ?_⟩
+  rw [List.drop_left' rfl]
+  exact Ape.decodeTag_encodeTag new hnew
 
 end Mutagen.C03
